@@ -112,10 +112,27 @@ def snap_doc(doc, ids=True, parent=True):
     return d
 
 
+class _deep_recursion(object):
+    """The snapshot code recurses about four frames per nesting level of a document and random editing histories
+    nest deeply. The limit is raised only while OUR code runs - never around library calls, whose behaviour at
+    the default limit (RecursionError on deeply nested input) is part of what is being checked."""
+    def __enter__(self):
+        self.old = sys.getrecursionlimit()
+        sys.setrecursionlimit(max(self.old, 50000))
+
+    def __exit__(self, *a):
+        sys.setrecursionlimit(self.old)
+
+
 def snap(obj, ids=True, parent=True):
     """Deep, independent snapshot of a Document / Section / Property.
     ids=False ignores object ids (for clone equality); parent=False ignores object identities
     and parent pointers (for comparing two different object graphs, e.g. after save/load)."""
+    with _deep_recursion():
+        return _snap(obj, ids, parent)
+
+
+def _snap(obj, ids=True, parent=True):
     if isinstance(obj, BaseDocument):
         return freeze(snap_doc(obj, ids, parent))
     if isinstance(obj, BaseSection):
